@@ -1040,13 +1040,24 @@ class RefCont:
 
     @staticmethod
     def build(jd, resolve):
-        c = RefCont()
+        """FIXContainer(dict): entries in dict order.  When an entry is refused the constructor fails; which of
+        several faulty entries is reported first is not specified, so all their errors are acceptable."""
+        c, errs = RefCont(), set()
         for kj, vj in jd:
             key = to_py(kj)
-            if isinstance(vj, dict) and "list" in vj:
-                c.set_group(key, vj["list"], resolve)
-            else:
-                c.set(key, to_py(vj), False)
+            try:
+                if isinstance(vj, dict) and "list" in vj:
+                    c.set_group(key, vj["list"], resolve)
+                else:
+                    c.set(key, to_py(vj), False)
+            except RefErr as e:
+                errs |= e.kinds
+                k = ref_tag(key)
+                if k is not None and k not in c.d:
+                    c.d[k] = "?"  # the implementation may have accepted this entry: a later equal tag may then be a duplicate
+                    errs.add("err Duplicated") if any(ref_tag(to_py(k2)) == k for k2, _ in jd if k2 is not kj) else None
+        if errs:
+            raise RefErr(errs)
         return c
 
     @staticmethod
@@ -1092,8 +1103,7 @@ class RefCont:
             try:
                 gs.append(RefCont.item(ij, resolve))
             except RefErr as e:
-                errs |= e.kinds
-                break
+                errs |= e.kinds  # which faulty item is reported first is not specified
         if errs:
             raise RefErr(errs)
         self.d[k] = gs
@@ -1252,6 +1262,9 @@ class RefStore:
             return acc | {"err TagNotFound"}
         if cmd == "query":
             ts = [to_py(t) for t in op[2]]
+            FTag = _lib()[2]
+            if any(isinstance(t, bool) or not isinstance(t, (int, str, FTag)) for t in ts):
+                return None  # int(1.0), int(True), … : the conversion of such objects is not specified
             keys = [ref_tag(t) for t in ts] if ts else list(c.d.keys())
             if any(k is None for k in keys):
                 return {"err Value", "err Type", "err FIXMessageError"}
@@ -1405,7 +1418,7 @@ def classify(op, acceptable, observed, impl, ref_before, state_only=False):
         return "C18-noncanonical-tag-distinct-key"
     if any(ref_tag(t) is None for t in live):
         return "C18-group-tag-not-checked"
-    what = "state" if state_only else observed
+    what = "state" if state_only else (observed if observed.startswith("err ") or " " not in observed else observed.split(" ")[0])
     return f"C18-divergence:{cmd}:{what}"
 
 
@@ -1465,6 +1478,7 @@ def gen_oracle_sequence(rng, dirty):
 
 
 def oracle(ctx, disagreements, broken):
+    broken = broken or bool(os.environ.get("C18_ORACLE_HARD"))  # self-test of the search on the unchanged tree
     failures, stats = [], {"sequences": 0, "ops": 0, "by_signature": {}}
     seqs = []
     # 1. witnesses of the recorded findings, 2. corpus, 3. disagreeing inputs, 4. samples
@@ -1486,6 +1500,10 @@ def oracle(ctx, disagreements, broken):
     if broken:
         for _ in range(ctx.n(1500, 8000)):
             seqs.append(gen_sequence(ctx.rng, odd=0.05, cls=0.0))
+    if os.environ.get("C18_ORACLE_HARD"):
+        # self-test: the oracle must stay silent (up to the recorded findings) on the correspondence's own streams
+        for i in range(3000):
+            seqs.append(gen_sequence(ctx.rng) if i % 2 else gen_sequence(ctx.rng, odd=0.35, cls=0.15))
     seen = {}
     for ops in seqs:
         n, f = oracle_run(ops)
